@@ -395,7 +395,8 @@ def guard_consts(facts, f, op):
 
 
 def accumulation_sites(f, defs):
-    """(block, statement, accumulator local, label-length local) of every `name_len += label_len + 1` (checked or plain add)"""
+    """(block, statement, accumulator local, label-length local) of every `name_len += label_len + 1` (checked or plain add), the
+    `label_len + 1` possibly held in a named local first"""
     out = []
     for bi, b in F.blocks(f):
         for s in b['stmts']:
@@ -403,15 +404,17 @@ def accumulation_sites(f, defs):
                     and not s['rv']['l']['place']['proj'] and s['rv']['r'].get('k') in ('copy', 'move')):
                 continue
             acc_l = s['rv']['l']['place']['local']
-            # one step back: U = (T).0, T = AddWithOverflow(copy L, const 1)  (or plain Add in release builds)
-            u = s['rv']['r']['place']['local']
-            du = defs.get(u)
+            # walk back from the right operand through copies and `.0` of a checked add to `L + 1`
+            cur = s['rv']['r']['place']['local'] if not s['rv']['r']['place']['proj'] else None
             lbl_l = None
-            if du and du[0] == 'rv':
-                rv2 = du[1]
-                if rv2['k'] == 'use' and rv2['x']['k'] in ('copy', 'move') and rv2['x']['place']['proj']:
-                    dt = defs.get(rv2['x']['place']['local'])
-                    rv2 = dt[1] if dt and dt[0] == 'rv' else rv2
+            for _ in range(8):
+                d = defs.get(cur) if cur is not None else None
+                if not d or d[0] != 'rv':
+                    break
+                rv2 = d[1]
+                if rv2['k'] == 'use' and rv2['x']['k'] in ('copy', 'move'):
+                    cur = rv2['x']['place']['local']       # a copy, or the value part `.0` of a checked addition
+                    continue
                 if rv2['k'] == 'binop' and rv2['op'].startswith('Add') and rv2['l'].get('k') in ('copy', 'move') and not rv2['l']['place']['proj'] and F.op_const(rv2['r']) == 1:
                     lbl_l = rv2['l']['place']['local']
                     for _ in range(4):   # release builds copy the label length into a temporary first
@@ -420,6 +423,7 @@ def accumulation_sites(f, defs):
                             lbl_l = dl[1]['x']['place']['local']
                         else:
                             break
+                break
             if lbl_l is None:
                 continue
             out.append((bi, s, acc_l, lbl_l))
